@@ -32,6 +32,7 @@ func nearbyWorld(args []string) int {
 	fs.IntVar(&p.NNear, "near", 0, "near fillers")
 	fs.IntVar(&p.NFar, "far", 0, "far objects")
 	fs.IntVar(&p.NExtra, "extraq", 2, "random query points")
+	fs.IntVar(&p.NRing, "nring", 0, "near-tie fillers per ring")
 	fs.Int64Var(&p.Seed, "seed", 1, "seed")
 	out := fs.String("out", "", "write the world to this file (and print a summary without the tables)")
 	fs.Parse(args)
